@@ -10,7 +10,7 @@ import os
 import subprocess
 import sys
 
-WT = "/tmp/wt/mine"
+WT = os.environ.get("SEED_WT", "/tmp/wt/mine")
 VERIF = os.path.dirname(os.path.dirname(os.path.abspath(__file__)))
 
 
@@ -19,7 +19,7 @@ def sh(cmd, **kw):
 
 
 def run_check(prop, tier):
-    env = dict(os.environ, VERIF_REPO=WT)
+    env = dict(os.environ, VERIF_REPO=WT, VERIF_OUT=os.environ.get("VERIF_OUT", "/tmp/seeded_out"))
     r = subprocess.run([os.path.join(VERIF, "vf"), prop, tier], capture_output=True, text=True, env=env, timeout=7200)
     viol = [l for l in r.stdout.splitlines() if l.startswith("VIOLATION")]
     mons = sorted(set(l.split("replay=replays/")[1].split("-seed")[0].split("-", 1)[1] for l in viol))
